@@ -15,9 +15,9 @@ def main():
     m = re.search(r"place in:\s*([\w/.-]+)", src)
     place = m.group(1).strip("/") if m else None
     res = dict(mutation=mdir, confirm={}, checks={})
-    pk = "$(go list ./... | grep -v /out)"
+    pk = "$(go list ./... | grep -v '/out')"
     if place:
-        sh("git checkout -q -- . && git clean -fdq -e out", cwd=wt)
+        sh("git checkout -q -- . && git clean -fdq -e out -e out2 -e out3", cwd=wt)
         dst = os.path.join(wt, place, "zz_demo_test.go"); shutil.copy(demo, dst)
         rc, out = sh("go test -count=1 ./%s/ 2>&1 | tail -5" % place, cwd=wt); res["confirm"]["demo_clean_passes"] = ("ok" in out and "FAIL" not in out)
         rc, out = sh("git apply %s" % patch, cwd=wt); res["confirm"]["applies"] = rc == 0
@@ -26,7 +26,7 @@ def main():
         os.remove(dst)
         rc, out = sh("go test -count=1 %s 2>&1 | grep -v '^ok\\|no test files' | head" % pk, cwd=wt); res["confirm"]["suite_passes_with_patch"] = out.strip() == ""
         if out.strip(): res["confirm"]["suite_output"] = out[:400]
-        sh("git checkout -q -- . && git clean -fdq -e out", cwd=wt)
+        sh("git checkout -q -- . && git clean -fdq -e out -e out2 -e out3", cwd=wt)
     # run the checks against /repo
     rc, out = sh("git -C /repo status --porcelain")
     if out.strip(): print("refusing: /repo not clean"); sys.exit(2)
